@@ -6,6 +6,7 @@ import Gotree.Spec.C16Cli
 import Gotree.Spec.C16Extra
 import Gotree.Spec.C16Doc
 import Gotree.Spec.C16Depth
+import Gotree.Model.C16Cli
 
 namespace Gotree.Driver.C16
 open Gotree Gotree.Driver Gotree.C16
@@ -95,12 +96,10 @@ def handleGen (f : List String) : Verdict :=
       else
         match rest with
         | dump :: tipsS :: rflag :: probesS :: ansS :: bitsS :: nrightS :: idxRest =>
-          -- the raw index records (absent on lines written by older harnesses)
+          -- the raw index records and the node depths (always present)
           let idxObs : Option (Option IdxObs) := match idxRest with
-            | [] => some none
-            | [rawS, nleftS, hcS, tdS, tiS] => (parseIdxObs rawS nleftS nrightS hcS tdS tiS).map some
             | [rawS, nleftS, hcS, tdS, tiS, _] => (parseIdxObs rawS nleftS nrightS hcS tdS tiS).map some
-            | _ => none
+            | _ => none   -- a line without the index records and depths is a harness bug: BAD
           -- Node.Depth() of every node (last field; absent on older lines)
           let depthObs : Option (List Int) := match idxRest with
             | [_, _, _, _, _, dS] => parseIntList dS
@@ -121,10 +120,10 @@ def handleGen (f : List String) : Verdict :=
             else if !flagsOK then ⟨.oracle, tags, "Tips()/Rooted() disagree with the tree"⟩
             else if !exOK then ⟨.oracle, tags, "index not ready: ExistsTip answers are wrong"⟩
             else if !bOK then ⟨.oracle, tags, "index not ready: bitsets / taxon counts do not describe the tree"⟩
-            else if !(match depthObs with | some ds => depthsOK t ds | none => true) then
+            else if !(match depthObs with | some ds => depthsOK t ds | none => false) then
               ⟨.oracle, tags, "index not ready: Node.Depth() is not the number of branches to the closest tip (below the node when rooted): " ++
                 toString (depthObs.getD []) ++ " instead of " ++ toString (depthsOf t)⟩
-            else if !(match iob with | some ob => indexOK t tips ob | none => true) then
+            else if !(match iob with | some ob => indexOK t tips ob | none => false) then
               ⟨.oracle, tags, "index not ready: a branch record (bitset, taxon counts, TopoDepth) or a TipIndex is not what the split prescribes (C04.branchOK)"⟩
             else
               match m with
@@ -135,9 +134,9 @@ def handleGen (f : List String) : Verdict :=
                 else if !scriptOK then ⟨.tie, tags, "draw protocol: the harness script is not the model's"⟩
                 else if !obsEq o.t t then ⟨.tie, tags, "model tree " ++ o.t.dump⟩
                 else if !indexReady o then ⟨.tie, tags, "model index not ready"⟩
-                else if exact && !(match depthObs with | some ds => depthsOK o.t ds | none => true) then
+                else if exact && !(match depthObs with | some ds => depthsOK o.t ds | none => false) then
                   ⟨.tie, tags, "node depths differ from the model's"⟩
-                else if !(match iob with | some ob => indexTie C04.fnv1a o t ob | none => true) then
+                else if !(match iob with | some ob => indexTie C04.fnv1a o t ob | none => false) then
                   ⟨.tie, tags, "index records (bitset, counts, HashCode) differ from C04's ReinitIndexes on the model's tree"⟩
                 else ⟨.pass, tags, ""⟩
               | .err e => ⟨.tie, tags, "model rejects: " ++ e⟩
@@ -172,7 +171,9 @@ def handleCli (f : List String) : Verdict :=
       else if below then
         if ntrees != "0" then ⟨.oracle, tags, "a size below the minimum produced output"⟩
         else if !hasE then ⟨.oracle, tags, "a size below the minimum was not reported as an error"⟩
-        else ⟨.pass, "rejected" :: tags ++ tagIf (exitS == "0") "rejected-exit0", ""⟩
+        else if exitS == "0" then
+          ⟨.oracle, "rejected-exit0" :: tags, "a size below the minimum is reported on stderr but the command exits with status 0 (a calling script sees success)"⟩
+        else ⟨.pass, "rejected" :: tags, ""⟩
       else if badS != "-" then ⟨.oracle, tags, "the output is not a readable tree: " ++ badS⟩
       else if ntrees != toString nb || exitS != "0" || hasE then
         ⟨.oracle, tags, "a valid size was rejected or the number of trees written is not the number asked for"⟩
@@ -185,12 +186,14 @@ def handleCli (f : List String) : Verdict :=
           else
             let triples := List.zip ts (List.zip intsM lensM)
             if triples.length != nb then bad "C16.cli draws" else
+            let runCli := fun (ints : List Nat) (lens : List Rat) =>
+              if g == .star then starCli n lens else run g n rooted ints lens
             let tied := triples.all fun (t, ints, lens) =>
-              match run g n rooted ints lens with
+              match runCli ints lens with
               | .ok o => obsEq o.t t
               | _ => false
             let lensExact := triples.all fun (t, ints, lens) =>
-              match run g n rooted ints lens with
+              match runCli ints lens with
               | .ok o => lensEq o.t t
               | _ => false
             let tags := tags ++ tagIf lensExact "lens-exact"
